@@ -641,7 +641,14 @@ func runInBubble(p plan) vk.Result {
 	}
 	respMsgs, _ := e2e.MessagesOf(sf, id)
 	if v := checkMessages("response", respEnc, respMsgs, p.Resps); v != "" {
-		return bad("%s [RPCCompressor %q SetSendCompressor %q]", v, p.SrvLegacyCP, p.SrvSet)
+		r := bad("%s [RPCCompressor %q SetSendCompressor %q]", v, p.SrvLegacyCP, p.SrvSet)
+		// known-finding predicate: RPCCompressor + SetSendCompressor("identity"):
+		// grpc-encoding says identity but every non-empty message is still
+		// compressed with the legacy compressor (and nothing else is wrong).
+		if p.SrvLegacyCP != "" && p.SrvSet == "identity" && !nonIdentity(respEnc) && checkMessages("response", p.SrvLegacyCP, respMsgs, p.Resps) == "" {
+			r.Sig = sigLegacyIdentity
+		}
+		return r
 	}
 	if mixed(respEnc, respMsgs, p.Resps) {
 		out.NonTrivial = true
@@ -707,6 +714,8 @@ func runInBubble(p plan) vk.Result {
 }
 
 var _ = errors.New
+
+const sigLegacyIdentity = "c27.rpccompressor_ignores_set_identity"
 
 func TestVerifC27(t *testing.T) {
 	vk.Check(t, vk.Unit[plan]{
